@@ -1343,7 +1343,19 @@ func (f *Frame) execIndexAddr(v *ssa.IndexAddr, st *State) {
 	case *types.Slice:
 		s := f.val(v.X)
 		f.mustHold(st, fmt.Sprintf("(and (<= 0 %s) (< %s (Slice_len %s)))", i, i, s), "index")
-		f.locs[v] = &Loc{kind: locElem, sref: sref(s), idx: addT(soff(s), i), rootT: u.Elem()}
+		// Element reads keep the index as the term (+ off i): quantified contract clauses over
+		// s[q] are triggered on exactly that shape. Element writes name the index: fewer
+		// arithmetic terms inside the updated array keep the store reasoning cheap.
+		idx := addT(soff(s), i)
+		if refs := v.Referrers(); refs != nil {
+			for _, r := range *refs {
+				if stv, ok := r.(*ssa.Store); ok && stv.Addr == v {
+					idx = f.vc.define("idx", "Int", idx)
+					break
+				}
+			}
+		}
+		f.locs[v] = &Loc{kind: locElem, sref: sref(s), idx: idx, rootT: u.Elem()}
 	case *types.Pointer:
 		at := u.Elem().Underlying().(*types.Array)
 		f.mustHold(st, fmt.Sprintf("(and (<= 0 %s) (< %s %d))", i, i, at.Len()), "index")
